@@ -28,7 +28,7 @@ Section Closure2.
     c_assert_done : forall i, P (assert_done true i) (assert_done false i);
     c_catch : forall A ids (m1 m2 h1 h2 : M A), P m1 m2 -> P h1 h2 ->
               P (catch_exceeded true ids m1 h1) (catch_exceeded false ids m2 h2);
-    c_problem : forall e, P (@fail unit e) (emit (Wn e)) }.
+    c_problem : forall pa ex fo, P (@fail unit (EEncMismatch pa ex fo)) (emit (Wn (EEncMismatch pa ex fo))) }.
 
   Hypothesis C : closed2.
 
